@@ -214,7 +214,24 @@ pub fn key_clock_watchdog(m: &Machine, limit: Duration) -> Option<Result<Machine
             Err(e) => Err(panic_msg(e)),
         });
     });
-    rx.recv_timeout(limit).ok()
+    // a step needs microseconds; `limit` is generous, but on a starved machine even that can pass: before the FIRST hang
+    // of a process is declared the step gets 25 more seconds (afterwards the short limit is enough - the defect is established)
+    static HANG_SEEN: std::sync::atomic::AtomicBool = std::sync::atomic::AtomicBool::new(false);
+    match rx.recv_timeout(limit) {
+        Ok(r) => Some(r),
+        Err(_) => {
+            if HANG_SEEN.load(std::sync::atomic::Ordering::Relaxed) {
+                return None;
+            }
+            match rx.recv_timeout(Duration::from_secs(25)) {
+                Ok(r) => Some(r),
+                Err(_) => {
+                    HANG_SEEN.store(true, std::sync::atomic::Ordering::Relaxed);
+                    None
+                }
+            }
+        }
+    }
 }
 
 /// Number of single edges after which `pre` equals `post` (minimal, <= bound), or -1.
@@ -313,6 +330,28 @@ impl<W: Write> Runner<W> {
                     }
                     Err(e) => self.emit_panic(&op, v.clone(), panic_msg(e)),
                 }
+            }
+            "new_checked" => {
+                // Machine::new / Machine::new_with_program as VALIDATED events: the configuration (and program) is logged, the
+                // specification computes the machine (ApplyConfigF / NewWithProgramF) and the complete state is compared
+                let cfgv = v.get("cfg").cloned().unwrap_or(json!({}));
+                let cfg = config_of(Some(&cfgv));
+                if v.get("image").is_some() {
+                    let image = bytes_of(v, "image");
+                    let ss = geti(v, "ss").unwrap_or(16);
+                    let ps = geti(v, "ps").unwrap_or(-1);
+                    let bc = bytecode_of(&image, ss, ps);
+                    self.m = Machine::new_with_program(cfg, bc);
+                    self.emit("newm", json!({"cfg": cfgv, "prog": 1, "image": image, "ss": ss, "ps": ps}), true, None);
+                } else {
+                    self.m = Machine::new(cfg);
+                    self.emit("newm", json!({"cfg": cfgv, "prog": 0, "image": [], "ss": 0, "ps": 0}), true, None);
+                }
+            }
+            "load_raw" => {
+                let image = bytes_of(v, "image");
+                self.m.load_raw(image.iter());
+                self.emit("load_raw", json!({"image": image}), true, None);
             }
             "restore" => {
                 let mut m = Machine::new(MachineConfig::default());
